@@ -6,6 +6,14 @@ import os
 HERE = os.path.dirname(os.path.dirname(os.path.abspath(__file__)))
 
 CHECKS = {
+    'C08': dict(
+        engine='rpc-model', category='exploration', design='4/C08',
+        technique='six-way differential of client-boundary traces (local / gRPC / split-Pythia x RAM / SQLite) + absolute client_abc promise monitors + server-side write monitor',
+        text=('~600 generated client programs per quick run, each replayed through the real client library on six deployment x '
+              'datastore combinations under a fresh owner; every method call recorded as normalised return value or exception class; '
+              'traces must be equal; missing study/trial => ResourceNotFoundError, finished study => [], add_trial outside the space '
+              '=> ValueError, complete() without data => ValueError; lifecycle monitor on every server-side trial write.'),
+        note='Datastore NotFoundError in process and status NOT_FOUND over the wire count as the same error class; messages are not compared.'),
     'C19': dict(
         engine='value-gen', category='exploration', design='4/C19',
         technique='result monitors on every VectorizedOptimizer call + jax.debug.callback log of every evaluated batch + independent numpy re-scoring outside jit',
